@@ -222,7 +222,7 @@ def cli_family(run, rules, modes, rule_text, flagged=None, full_model=False):
     for mode in modes:
         if mode == "long":
             # random walks through the command model (TLC simulation mode): histories of 12 commands
-            n = 200 if run.tier == "quick" else 3000
+            n = 40 if run.tier == "quick" else 2000
             cases, r = run.mc("MC_Cli", {"KV_MODE": mode}, out_name="cases-%s.ndjson" % mode, workers=1, cfg="MC_CliLite",
                               simulate="num=%d" % n, extra=["-depth", "13", "-seed", str(run.seed)])
         else:
